@@ -516,9 +516,6 @@ Proof.
 Qed.
 
 (* OnesCount = number of members: counted against a run-wise sum over the set model *)
-Fixpoint count_upto (s : N -> bool) (n : nat) : N :=
-  match n with O => 0 | S k => (if s (N.of_nat k) then 1 else 0) + count_upto s k end.
-
 Lemma count_upto_ext s t n : (forall i, i < N.of_nat n -> s i = t i) -> count_upto s n = count_upto t n.
 Proof.
   induction n as [|k IH]; intro E; [reflexivity|].
